@@ -126,6 +126,9 @@ def alphabet(n_prev: int) -> List[tuple]:
     for k in range(n_prev):
         ops.append(('continue-created', k, False))  # continue the process created / launched by the k-th earlier task
     ops.append(('bogus',))
+    for cls in ('two', 'fail'):
+        for nowait in (False, True):
+            ops.append(('execute', cls, nowait))  # controller.execute_process: create (persisted) + continue
     return ops
 
 
@@ -245,6 +248,8 @@ class System:
         self.pids.append(None)
         kind = op[0]
         rejected_expected = False
+        if kind == 'execute':
+            return self.apply_execute(op, pid, feats, fail, bad)
         if kind in ('create', 'launch'):
             cls = CLASSES[op[1]]
             persist = op[2]
@@ -359,6 +364,50 @@ class System:
                 if kind in ('continue', 'continue-created') else True
             if needs_load and len(CountingLoader.loads) == loads_before:
                 fail('configured-loader-not-used', None)
+        return bad
+
+    def apply_execute(self, op: tuple, pid: str, feats: Dict[str, Any], fail: Any, bad: list) -> list:
+        """RemoteProcessThreadController.execute_process (only exists on the communicator path)."""
+        if self.controller is None:
+            return bad
+        loop = self.loop
+        ran_before = list(RAN)
+        constructed_before = list(CONSTRUCTED)
+        keys_before = self.persisted_keys()
+        fut = self.controller.execute_process(CLASSES[op[1]], init_kwargs={'pid': pid, 'inputs': {'k': self.n}},
+                                              loader=self.loader, nowait=op[2])
+        fut = futures.unwrap_kiwi_future(fut)
+        while not fut.done() and loop.tick():
+            pass
+        loop.drain()
+        new_ran = RAN[len(ran_before):]
+        new_keys = {k: v for k, v in self.persisted_keys().items() if k not in keys_before}
+        if self.persister is None:
+            if not fut.done() or fut.cancelled() or fut.exception() is None or 'TaskRejected' not in repr(fut.exception()):
+                fail('impossible-task-not-rejected', repr(fut))
+            if new_ran or CONSTRUCTED[len(constructed_before):]:
+                fail('rejected-task-had-effects', {'ran': new_ran})
+            return bad
+        self.pids[-1] = pid
+        full = [(pid, s) for s in FULL_TRACE[op[1]]]
+        if new_ran != full:
+            fail('execute:not-run-exactly-once', {'ran': new_ran, 'want': full}, cls=op[1])
+        if (pid, None) not in new_keys:
+            fail('execute:not-persisted-first', sorted(map(repr, new_keys)))
+        else:
+            self.stored[(pid, None)] = ','.join(FULL_TRACE[op[1]])
+            if op[1] in FAILS:
+                self.failing.add((pid, None))
+        if not fut.done():
+            fail('execute:no-reply', repr(fut))
+        elif op[2]:
+            if fut.cancelled() or fut.exception() is not None or fut.result() != pid:
+                fail('execute:nowait-reply', repr(fut))
+        elif op[1] in FAILS:
+            if fut.cancelled() or fut.exception() is None:
+                fail('execute:error-not-reported', repr(fut))
+        elif fut.cancelled() or fut.exception() is not None or fut.result() != {'first': 1, 'second': 2}:
+            fail('execute:reply-not-outputs', repr(fut))
         return bad
 
     def _is_failing(self, key: Tuple[Any, Any]) -> bool:
